@@ -229,6 +229,58 @@ theorem other_content_never_selected (parseExpr unescape : String → Option Str
         · rfl
         · split <;> simp [hother]) dataRaw rest
 
+/-! ### attribute order
+
+A statement's attributes may come in any order (`jcmd:active` before or after `jcmd:comment`,
+namespace declarations anywhere); XML gives the order no meaning. With at most one annotation — an
+element cannot carry the same attribute twice — the selection is the same for every order. -/
+
+theorem selected_attr_perm (parseExpr unescape : String → Option String) (s : Stmt) (attrs' : List Attr)
+    (hp : s.attrs.Perm attrs') (h1 : s.annotations.length ≤ 1) :
+    Stmt.selected parseExpr unescape { s with attrs := attrs' } = Stmt.selected parseExpr unescape s := by
+  have hin : ({ s with attrs := attrs' } : Stmt).inactive = s.inactive := by
+    simp only [Stmt.inactive]
+    exact (List.Perm.any_eq hp).symm
+  have hpa : s.annotations.Perm ({ s with attrs := attrs' } : Stmt).annotations := by
+    simp only [Stmt.annotations]
+    exact List.Perm.filterMap _ hp
+  have han : ({ s with attrs := attrs' } : Stmt).annotations = s.annotations := by
+    generalize ha : s.annotations = l at hpa h1
+    generalize ({ s with attrs := attrs' } : Stmt).annotations = l' at hpa
+    match l, h1 with
+    | [], _ => exact (List.Perm.nil_eq hpa).symm
+    | [x], _ => exact (List.perm_singleton.mp hpa.symm)
+    | _ :: _ :: _, h => simp at h
+  have hann : ({ s with attrs := attrs' } : Stmt).annotation = s.annotation := by
+    simp only [Stmt.annotation, han]
+  simp only [Stmt.selected, hin, hann]
+  rfl
+
+/-- … hence so is what the reader returns for the whole configuration: reordering the attributes of
+any one statement (here: the statement `s` between `pre` and `post`) changes nothing -/
+theorem readCandidates_attr_order (parseExpr unescape : String → Option String) (cfg : Config)
+    (pre post : List PoItem) (s : Stmt) (attrs' : List Attr)
+    (hitems : cfg.items = pre ++ .stmt s :: post) (hwf : cfg.WF unescape)
+    (hp : s.attrs.Perm attrs') (h1 : s.annotations.length ≤ 1) (dataRaw : String) (rest : List Ev) :
+    readCandidates .fixed parseExpr unescape dataRaw
+        ({ cfg with items := pre ++ PoItem.stmt { s with attrs := attrs' } :: post }.render dataRaw ++ rest)
+      = readCandidates .fixed parseExpr unescape dataRaw (cfg.render dataRaw ++ rest) := by
+  have hst : cfg.stmts = stmtsOf pre ++ s :: stmtsOf post := by simp [Config.stmts, hitems, stmtsOf]
+  have hst' : ({ cfg with items := pre ++ PoItem.stmt { s with attrs := attrs' } :: post } : Config).stmts
+      = stmtsOf pre ++ { s with attrs := attrs' } :: stmtsOf post := by simp [Config.stmts, stmtsOf]
+  have hs : s.WF unescape := hwf s (by rw [hst]; simp)
+  have hwf' : ({ cfg with items := pre ++ PoItem.stmt { s with attrs := attrs' } :: post } : Config).WF unescape := by
+    intro x hx
+    rw [hst'] at hx
+    rcases List.mem_append.mp hx with h | h
+    · exact hwf x (by rw [hst]; exact List.mem_append.mpr (Or.inl h))
+    · rcases List.mem_cons.mp h with rfl | h
+      · exact ⟨fun a ha => hs.attrs a (hp.mem_iff.mpr ha), hs.body, hs.inert, hs.keyed⟩
+      · exact hwf x (by rw [hst]; exact List.mem_append.mpr (Or.inr (List.mem_cons_of_mem _ h)))
+  rw [candidates_eq_select parseExpr unescape cfg hwf, candidates_eq_select parseExpr unescape _ hwf']
+  simp only [select, hst, hst', List.filterMap_append, List.filterMap_cons,
+    selected_attr_perm parseExpr unescape s attrs' hp h1]
+
 /-- any element, empty element, text or CDATA next to name / `then`, a second name, a second
 `then`, or a `then` holding anything but `<reject/>` makes a statement "other content" -/
 theorem other_item_not_defaultReject (s : Stmt) (h : s.body.any BodyItem.isOther = true) : s.defaultReject = false := by
